@@ -119,6 +119,14 @@ func c09Judge(c spec.Case, evs []spec.Event, d *Death) CaseResult {
 					viol("unmatched-dial-succeeded", fmt.Sprintf("step %s: a dial with no accept succeeded", s.Step))
 				}
 			}
+		case "dial-timeout-then-accept":
+			// (gRPC kinds) the id is accepted after the first dial gave up and dialled again 300 ms later:
+			// that accept and that dial are well inside each other's window and must connect
+			if strings.HasPrefix(s.Note, "redial: ") && s.Note != "redial: " {
+				viol("redial-after-late-accept-failed", fmt.Sprintf("step %s: the id was accepted after a timed-out dial and dialled again 300 ms later, which failed: %s", s.Step, strings.TrimPrefix(s.Note, "redial: ")))
+			} else if strings.HasPrefix(s.Note, "redial: ") {
+				res.Counters["redials_after_late_accept_ok"]++
+			}
 		case "accept-nodial":
 			if p.Kind == "mux" && len(s.Errs) > 0 && s.Errs[0] == "" {
 				viol("unmatched-accept-succeeded", fmt.Sprintf("step %s: an accept with no dial succeeded", s.Step))
